@@ -15,6 +15,8 @@ class (segment-kind signature x divergence kind) and is what replay files and
 known findings are grouped by.
 """
 import collections
+import faulthandler
+import signal
 import hashlib
 import json
 import multiprocessing
@@ -22,6 +24,11 @@ import os
 import sys
 import time
 import traceback
+
+try:
+    faulthandler.register(signal.SIGUSR1, all_threads=True)
+except (AttributeError, ValueError, OSError):
+    pass
 
 VERIF = os.path.dirname(os.path.dirname(os.path.abspath(__file__)))
 REPO = os.environ.get("VERIF_REPO", "/repo")
@@ -299,6 +306,34 @@ def write_replay(mod, failure):
         json.dump(doc, fh, indent=1, default=repr)
         fh.write("\n")
     return path
+
+
+class Hang(BaseException):
+    """Raised inside the code under test by the watchdog."""
+
+
+def _hang(signum, frame):
+    raise Hang()
+
+
+class watchdog:
+    """with watchdog(5): ...   raises Hang when the body runs too long, so a
+    non-terminating library call becomes a reportable outcome, not a stuck
+    check."""
+
+    def __init__(self, seconds):
+        self.seconds = seconds
+        self.old = None
+
+    def __enter__(self):
+        self.old = signal.signal(signal.SIGALRM, _hang)
+        signal.alarm(self.seconds)
+        return self
+
+    def __exit__(self, *exc):
+        signal.alarm(0)
+        signal.signal(signal.SIGALRM, self.old)
+        return False
 
 
 def now():
